@@ -246,8 +246,9 @@ Section C01.
     destruct (iter_ok _ _ _ Hit _ Hreqd) as (u' & Hx). cbn beta iota in Hx.
     destruct (ai_restr ai) as [q|] eqn:Eq; [|discriminate Eu].
     apply bind_ok in Hx. destruct Hx as (id & Hid & _). apply of_opt_ok in Hid.
-    apply assoc_In in Hid. apply in_keys in Hid. rewrite keys_app, Hka, Hku in Hid.
-    apply in_app_or in Hid. destruct Hid as [Hid|Hid]; [exact (assoc_none_not_key _ _ Eun Hid)|].
+    apply assoc_In in Hid. apply in_keys in Hid.
+    assert (Hid' : In r (keys uids) \/ In r (keys aids)) by (destruct (f_restr_revealed_first cfg); rewrite keys_app in Hid; apply in_app_or in Hid; tauto).
+    clear Hid. rewrite Hka, Hku in Hid'. destruct Hid' as [Hid|Hid]; [exact (assoc_none_not_key _ _ Eun Hid)|].
     apply in_app_or in Hid. destruct Hid as [Hid|Hid]; [exact (assoc_none_not_key _ _ Egr Hid)|exact (assoc_none_not_key _ _ Erev Hid)].
   Qed.
 
